@@ -144,7 +144,7 @@ def gen_grid_case(rng):
     js = scen.gen_scenario(rng, n_gc=1, n_veh=rng.randint(1, 4), features=feats, steps=rng.choice([8, 16, 24, 48]), interval=rng.choice([15, 60, 30]))
     js.pop("_features", None)
     n = js["scenario"]["n_intervals"]
-    ln = rng.choice([n, n, n // 2, n * 2])
+    ln = rng.choice([n, n, n // 2, n * 2, n * 2, n + 3])
     sign = rng.choice([1, -1])
     grid = [[round(rng.uniform(-400, 600), 2), sign * round(max(0, rng.uniform(-50, 80)), 2)] for _ in range(ln)]
     js["scenario"]["core_standing_time"] = rng.choice([None, {"times": [{"start": [22, 0], "end": [5, 0]}], "no_drive_days": [6]},
@@ -169,7 +169,7 @@ def gen_grid_case(rng):
                 e["update"]["desired_soc"] = 1
         comp["grid_connectors"][next(iter(comp["grid_connectors"]))]["max_power"] = 630
         grid = [[r_, sign * abs(rng.uniform(5, 80))] for r_, _ in grid]
-    return {"js": js, "grid": grid, "individual": individual, "with_ts": rng.random() < 0.5, "offset": rng.choice([0, 0, 2, -2])}
+    return {"js": js, "grid": grid, "individual": individual, "with_ts": rng.random() < 0.6, "offset": rng.choice([0, 2, 2, 3, -2])}
 
 
 def run_generate(case):
